@@ -53,14 +53,14 @@ func (s *c15Stub) UpdateContainers(u []*api.ContainerUpdate) ([]*api.ContainerUp
 	return nil, nil
 }
 
-func c15Config(gen int64) *cfgapi.TopologyAwarePolicy {
+// c15Config: metrics=true makes instrumentation create the metrics gatherer (no collectors
+// enabled), so that metrics.Block() in the handlers takes a real second mutex: a handler that
+// takes it before the pipeline lock then deadlocks against the others.
+func c15Config(gen int64, metrics ...bool) *cfgapi.TopologyAwarePolicy {
 	cfg := &cfgapi.TopologyAwarePolicy{}
 	cfg.ObjectMeta = metav1.ObjectMeta{Name: "default", Generation: gen}
 	cfg.Spec.Config.ReservedResources = policyapi.Constraints{policyapi.CPU: "750m"}
-	// From generation 2 on the metrics gatherer exists (no collectors enabled), so that
-	// metrics.Block() in the handlers takes a real second mutex: a handler that takes it
-	// before the pipeline lock deadlocks against the others.
-	cfg.Spec.Instrumentation.PrometheusExport = gen >= 2
+	cfg.Spec.Instrumentation.PrometheusExport = len(metrics) > 0 && metrics[0]
 	return cfg
 }
 
@@ -310,6 +310,82 @@ func c15QuiesceLocked(m *resmgr, ph *c15Phase, r *c15Rec) {
 	}
 }
 
+// c15SyncPhase: Synchronize over a fixed set, concurrent with updates of that set and reconfigure.
+func c15SyncPhase(m *resmgr, name string, metrics bool, iters int, seed int64, budget time.Duration) *c15Phase {
+	ph := c15NewPhase(name, 3)
+	r := &c15Rec{ph: ph}
+	ctx := context.Background()
+	var pods []*api.PodSandbox
+	var ctrs []*api.Container
+	setup := func() {
+		for i := 0; i < 3; i++ {
+			id := fmt.Sprintf("%s%d", name, i)
+			pod := c15Pod(id, "burstable")
+			pods = append(pods, pod)
+			r.call("RunPodSandbox", func() error { return m.nri.RunPodSandbox(ctx, pod) })
+			c := c15Ctr(id+"-c0", id, 300, false)
+			ctrs = append(ctrs, c)
+			r.call("CreateContainer", func() error { _, _, e := m.nri.CreateContainer(ctx, pod, c); return e })
+			r.call("StartContainer", func() error { return m.nri.StartContainer(ctx, pod, c) })
+			c.State = api.ContainerState_CONTAINER_RUNNING
+		}
+		r.call("reconfigure", func() error { return m.reconfigure(c15Config(50, metrics)) })
+		if b := instmetrics.Block(); b != nil {
+			ph.Gatherer = true
+			b.Done()
+		}
+	}
+	c15RunAll(ph, r, budget, []func(){setup})
+	var fs []func()
+	fs = append(fs, func() {
+		for i := 0; i < 2*iters; i++ {
+			r.call("Synchronize", func() error { _, e := m.nri.Synchronize(ctx, pods, ctrs); return e })
+		}
+	})
+	fs = append(fs, func() {
+		rng := rand.New(rand.NewSource(seed * 3000))
+		for i := 0; i < 6*iters; i++ {
+			k := rng.Intn(len(ctrs))
+			res := c15Ctr("x", pods[k].Id, int64(200+100*rng.Intn(3)), false).Linux.Resources
+			r.call("UpdateContainer", func() error { _, e := m.nri.UpdateContainer(ctx, pods[k], ctrs[k], res); return e })
+		}
+	})
+	fs = append(fs, func() {
+		for i := 0; i < 2*iters; i++ {
+			cfg := c15Config(int64(100+i), metrics)
+			r.call("reconfigure", func() error { return m.reconfigure(cfg) })
+		}
+	})
+	fs = append(fs, func() {
+		rng := rand.New(rand.NewSource(seed * 3001))
+		for i := 0; i < iters; i++ {
+			// (Synchronize purges pods it was not told about: these calls may find their pod gone)
+			c15Lifecycle(m, r, rng, fmt.Sprintf("%s-x%d", name, i), true)
+		}
+	})
+	if ph.Completed {
+		ph.Completed = false
+		ph.Goroutines = len(fs)
+		c15RunAll(ph, r, budget, fs)
+	}
+	if metrics && ph.Completed {
+		// switch the gatherer off again: with it, metrics.Block() serializes the handlers by itself,
+		// which would hide a missing pipeline lock from the race detector in the later phases
+		done := make(chan struct{})
+		go func() {
+			defer close(done)
+			r.call("reconfigure", func() error { return m.reconfigure(c15Config(500, false)) })
+		}()
+		select {
+		case <-done:
+		case <-time.After(budget):
+			ph.Completed = false
+			ph.Stuck = "switching the metrics gatherer off did not complete"
+		}
+	}
+	return ph
+}
+
 func TestVerifC15(t *testing.T) {
 	out := os.Getenv("VERIF_OUT")
 	if out == "" {
@@ -327,7 +403,7 @@ func TestVerifC15(t *testing.T) {
 	budget := time.Duration(geti("VERIF_C15_BUDGET_S", 60)) * time.Second
 	phases := os.Getenv("VERIF_C15_PHASES")
 	if phases == "" {
-		phases = "seq,fetch,lifecycle,reconfigure,synchronize"
+		phases = "lockorder,reconfigure,synchronize,seq,fetch,lifecycle"
 	}
 	want := map[string]bool{}
 	for _, p := range strings.Split(phases, ",") {
@@ -350,13 +426,18 @@ func TestVerifC15(t *testing.T) {
 		f.Close()
 	}
 
+	// ---- lockorder: the synchronize workload with the metrics gatherer present.  First, because
+	// the gatherer can only be created while a single policy instance has registered its
+	// collector in this process.
+	if want["lockorder"] {
+		m := c15New(t, root, "lockorder")
+		results = append(results, c15SyncPhase(m, "lockorder", true, iters, seed, budget))
+		flush(false)
+	}
+
 	// ---- reconfigure: lifecycles concurrent with configuration updates
-	// (these two phases come first and share one instance: the metrics gatherer can only be
-	// created while a single policy instance has registered its collector in this process)
-	var shared *resmgr
 	if want["reconfigure"] {
 		m := c15New(t, root, "reconfigure")
-		shared = m
 		ph := c15NewPhase("reconfigure", N+1)
 		r := &c15Rec{ph: ph}
 		var fs []func()
@@ -386,71 +467,14 @@ func TestVerifC15(t *testing.T) {
 		if ph.Completed {
 			c15Quiesce(m, ph, r, budget)
 		}
-		if ph.Completed {
-			if b := instmetrics.Block(); b != nil {
-				ph.Gatherer = true
-				b.Done()
-			}
-		}
 		results = append(results, ph)
 		flush(false)
 	}
 
 	// ---- synchronize: Synchronize over a fixed set, concurrent with updates of that set and reconfigure
 	if want["synchronize"] {
-		m := shared
-		if m == nil {
-			m = c15New(t, root, "synchronize")
-		}
-		ph := c15NewPhase("synchronize", 3)
-		r := &c15Rec{ph: ph}
-		ctx := context.Background()
-		var pods []*api.PodSandbox
-		var ctrs []*api.Container
-		setup := func() {
-			for i := 0; i < 3; i++ {
-				id := fmt.Sprintf("s%d", i)
-				pod := c15Pod(id, "burstable")
-				pods = append(pods, pod)
-				r.call("RunPodSandbox", func() error { return m.nri.RunPodSandbox(ctx, pod) })
-				c := c15Ctr(id+"-c0", id, 300, false)
-				ctrs = append(ctrs, c)
-				r.call("CreateContainer", func() error { _, _, e := m.nri.CreateContainer(ctx, pod, c); return e })
-				r.call("StartContainer", func() error { return m.nri.StartContainer(ctx, pod, c) })
-				c.State = api.ContainerState_CONTAINER_RUNNING
-			}
-			r.call("reconfigure", func() error { return m.reconfigure(c15Config(50)) })
-			if b := instmetrics.Block(); b != nil {
-				ph.Gatherer = true
-				b.Done()
-			}
-		}
-		c15RunAll(ph, r, budget, []func(){setup})
-		var fs []func()
-		fs = append(fs, func() {
-			for i := 0; i < 2*iters; i++ {
-				r.call("Synchronize", func() error { _, e := m.nri.Synchronize(ctx, pods, ctrs); return e })
-			}
-		})
-		fs = append(fs, func() {
-			rng := rand.New(rand.NewSource(seed * 3000))
-			for i := 0; i < 6*iters; i++ {
-				k := rng.Intn(len(ctrs))
-				res := c15Ctr("x", pods[k].Id, int64(200+100*rng.Intn(3)), false).Linux.Resources
-				r.call("UpdateContainer", func() error { _, e := m.nri.UpdateContainer(ctx, pods[k], ctrs[k], res); return e })
-			}
-		})
-		fs = append(fs, func() {
-			for i := 0; i < 2*iters; i++ {
-				cfg := c15Config(int64(100 + i))
-				r.call("reconfigure", func() error { return m.reconfigure(cfg) })
-			}
-		})
-		if ph.Completed {
-			ph.Completed = false
-			c15RunAll(ph, r, budget, fs)
-		}
-		results = append(results, ph)
+		m := c15New(t, root, "synchronize")
+		results = append(results, c15SyncPhase(m, "synchronize", false, iters, seed, budget))
 		flush(false)
 	}
 
